@@ -3,8 +3,15 @@
 set -e
 cd "$(dirname "$0")/.."
 b=$1; shift
+cp KNOWN_FINDINGS.json /var/tmp/kf_main.json
+cp .gitignore /var/tmp/gi_main
 git merge --no-edit -X theirs "$b" || { echo "MERGE CONFLICT"; git status --short | head; exit 1; }
-git checkout HEAD -- KNOWN_FINDINGS.json 2>/dev/null || true
+if ! cmp -s KNOWN_FINDINGS.json /var/tmp/kf_main.json; then
+  cp KNOWN_FINDINGS.json /var/tmp/kf_$b.json   # what the branch proposed (for the coordinator to read)
+  cp /var/tmp/kf_main.json KNOWN_FINDINGS.json
+fi
+cp /var/tmp/gi_main .gitignore
+git add -A; git commit -qm "merge $b: keep coordinator's KNOWN_FINDINGS.json and .gitignore" || true
 ./setup.sh | tail -2
 /venv/bin/python harness/mkmanifest.py
 for id in "$@"; do
